@@ -80,6 +80,32 @@ def ref_max_climb(eng, P, h, v, T):
     return t * (1.0 - corr)
 
 
+def ref_cond(eng, P, pt, m):
+    """conditioning of the point: (magnitude of the largest term that enters the thrust, d fuel flow / d thrust).
+    Total-energy thrust is drag + m g rocd / v + m a, the maximum thrust a polynomial whose terms reach 1e4-1e5 N and may
+    cancel (above the altitude where it changes sign the result is a few N): the 1e-6 .. 1e-5 relative difference between
+    AEIC's rounded unit constants and the exact ones used here is relative to THOSE terms, not to the result."""
+    h, v, T = pt['alt'], pt['v'], pt['T']
+    hp, vk = h / FT, v / KT
+    rho = isa_p(h) / (R_AIR * T)
+    cl = 2.0 * m * G0 / (rho * v * v * P['S_ref'])
+    drag = (P['c_d0cr'] + P['c_d2cr'] * cl * cl) * rho * v * v * P['S_ref'] / 2.0
+    if eng == 'Jet':
+        poly = abs(P['c_tc1']) * max(1.0, abs(hp / P['c_tc2']), abs(P['c_tc3'] * hp * hp))
+        dfdt = abs(P['c_f1'] * (1.0 + vk / P['c_f2'])) / 60000.0
+    elif eng == 'Turboprop':
+        poly = max(abs(P['c_tc1'] / vk) * max(1.0, abs(hp / P['c_tc2'])), abs(P['c_tc3']))
+        dfdt = abs(P['c_f1'] * (1.0 - vk / P['c_f2']) * (vk / 1000.0)) / 60000.0
+    else:
+        poly = max(abs(P['c_tc1']) * max(1.0, abs(hp / P['c_tc2'])), abs(P['c_tc3'] / vk))
+        dfdt = 0.0
+    scale = max(abs(drag), abs(m * G0 * pt['rocd'] / v), abs(m * pt['acc']), poly, 1.0)
+    return scale, dfdt * (P['c_fcr'] if pt['cruise'] else 1.0)
+
+
+REL = 1e-5          # oracle tolerance, relative to the magnitude of the terms involved (see ref_cond)
+
+
 def ref_thrust(eng, P, pt, m):
     h, v, T = pt['alt'], pt['v'], pt['T']
     rho = isa_p(h) / (R_AIR * T)
@@ -126,6 +152,16 @@ def ref_rate(eng, P, pt, m, **kw):
 def ref_steps(eng, P, pts, prev, ds, **kw):
     y = [ref_rate(eng, P, pt, m, **kw) for pt, m in zip(pts, prev)]
     return [ds[k] * (y[k] + y[k + 1]) / 2.0 for k in range(len(pts) - 1)]
+
+
+def ref_step_tols(eng, P, pts, prev, ds):
+    """absolute slack of each step from the conditioning of the thrust at its two end points:
+    ds * (dflow/dthrust * REL * term scale / ground speed), averaged as the trapezoid does"""
+    yt = []
+    for pt, m in zip(pts, prev):
+        scale, dfdt = ref_cond(eng, P, pt, m)
+        yt.append(REL * dfdt * scale / pt['gs'])
+    return [abs(ds[k]) * (yt[k] + yt[k + 1]) / 2.0 for k in range(len(pts) - 1)]
 
 
 # ---------------------------------------------------------------------------------------------
@@ -457,8 +493,13 @@ def judge(chk: Check, c, io, tag):
     start = prev if prev is not None else [c['m']] * n
     bad, sig = None, None
 
+    step_tol = ref_step_tols(eng, P, pts, start, ds)
+
+    def step_ok(g, w, t):
+        return abs(g - w) <= REL * max(abs(w), abs(g)) + 1e-9 * scale + t
+
     def steps_ok(want, got=steps, lo=0):
-        return all(abs(g - w) <= 1e-5 * max(abs(w), abs(g)) + 1e-9 * scale for g, w in list(zip(got, want))[lo:])
+        return all(step_ok(g, w, t) for g, w, t in list(zip(got, want, step_tol))[lo:])
 
     want = ref_steps(eng, P, pts, start, ds)
 
@@ -486,8 +527,7 @@ def judge(chk: Check, c, io, tag):
         sig = explain() if (fd and j == 0) else None
         sig = sig if sig == F18_SIG else None
     elif not steps_ok(want):
-        j = next(i for i, (g, w) in enumerate(zip(steps, want))
-                 if abs(g - w) > 1e-5 * max(abs(w), abs(g)) + 1e-9 * scale)
+        j = next(i for i, (g, w, t) in enumerate(zip(steps, want, step_tol)) if not step_ok(g, w, t))
         bad = (f'decrease of mass over step {j} is {steps[j]!r} kg, trapezoid of fuel flow / ground speed over that '
                f'segment is {want[j]!r} kg')
         sig = explain()
@@ -504,18 +544,22 @@ def judge(chk: Check, c, io, tag):
         # point-wise: thrust and specific ground range the library reports for the returned masses
         for j, (pt, m) in enumerate(zip(pts, r)):
             thr, tmax, te = ref_thrust(eng, P, pt, m)
-            if abs(io['thrust'][j] - thr) > 1e-5 * max(abs(thr), abs(tmax), 1.0):
+            tscale, dfdt = ref_cond(eng, P, pt, m)
+            if abs(io['thrust'][j] - thr) > REL * max(abs(thr), tscale):
                 bad = (f'calculate_thrust at point {j}: {io["thrust"][j]!r} N, BADA-3 equations give {thr!r} N '
-                       f'(total-energy {te!r}, applicable maximum {tmax!r})')
+                       f'(total-energy {te!r}, applicable maximum {tmax!r}, largest term {tscale!r})')
                 break
+            # specific ground range, compared as the fuel flow it stands for: |flow - reference| within REL of the flow
+            # plus REL of (d flow / d thrust) x (largest thrust term)
             f = ref_flow(eng, P, pt, m)
-            ws = 0.0 if f == 0.0 else pt['gs'] / f
-            # tolerance: AEIC's rounded unit constants (0.514444 m/s per knot, 3.28084 ft per m) differ from the
-            # exact ones used here by up to 9e-7; near-zero thrust amplifies relative differences of the flow
-            amp = max(1.0, min(1e6, abs(tmax) / max(abs(thr), 1e-30))) if eng != 'Piston' else 1.0
-            if abs(io['sgr'][j] - ws) > 1e-5 * amp * max(abs(ws), 1.0):
-                bad = (f'specific ground range at point {j}: {io["sgr"][j]!r} m/kg, ground speed / BADA-3 fuel flow = {ws!r}')
-                if eng == 'Piston' and abs(io['sgr'][j] * 60.0 - ws) <= 1e-5 * max(abs(ws), 1.0):
+            ftol = REL * dfdt * tscale
+            si = io['sgr'][j]
+            fi = 0.0 if si == 0.0 else pt['gs'] / si
+            if abs(fi - f) > REL * max(abs(f), abs(fi)) + ftol:
+                ws = 0.0 if f == 0.0 else pt['gs'] / f
+                bad = (f'specific ground range at point {j}: {si!r} m/kg (fuel flow {fi!r} kg/s), ground speed / BADA-3 fuel '
+                       f'flow = {ws!r} m/kg (fuel flow {f!r} kg/s)')
+                if eng == 'Piston' and abs(fi - 60.0 * f) <= REL * abs(fi):
                     sig = FB_SIG
                 break
     if bad is None:
@@ -566,10 +610,14 @@ def process(chk: Check, cases, flags):
             continue
         mr, mt, ms = v
         scale = abs(c['m'])
+        # model and implementation use the same constants; where the thrust is a small difference of large terms (series
+        # exp / ln vs libm, 1e-15 of the terms) the comparison is relative to those terms: 1e-11 of the largest one
+        tsc = [ref_cond(c['engine'], c['params'], pt, m_)[0] for pt, m_ in zip(c['pts'], io['result'])]
         ok = (len(mr) == len(io['result'])
               and all(close(a, b, rel=1e-9, scale=scale) for a, b in zip(mr, io['result']))
-              and all(close(a, b, rel=1e-8, scale=1.0) for a, b in zip(mt, io['thrust']))
-              and all(close(a, b, rel=1e-8, scale=1.0) for a, b in zip(ms, io['sgr'])))
+              and all(close(a, b, rel=1e-8, scale=10.0 * ts) for a, b, ts in zip(mt, io['thrust'], tsc))
+              and all(close(a, b, rel=1e-8 + 1e-11 * ts / max(abs(t_), 1e-300), scale=1.0)
+                      for a, b, ts, t_ in zip(ms, io['sgr'], tsc, io['thrust'])))
         if not ok:
             chk.broken('correspondence:C19_Model.' + c['driver'],
                        f'model masses {mr[:4]}… thrust {mt[:2]}… sgr {ms[:2]}… vs implementation {io["result"][:4]}… '
@@ -581,7 +629,10 @@ def process(chk: Check, cases, flags):
 def load_corpus(chk):
     out = []
     for f in sorted((VERIF / 'corpus' / chk.pid).glob('*.json')):
-        out.append(json.loads(f.read_text())['case'])
+        c = json.loads(f.read_text())['case']
+        for k in ('model_key', 'twin_of', 'mutate_params', 'first_flight'):      # corpus cases stand alone
+            c.pop(k, None)
+        out.append(c)
     return out
 
 
